@@ -509,6 +509,8 @@ func runC19(c *Ctx) {
 	}
 	c.Floor(r5, 30, "handler status/error sites")
 
+	s.checkConsumerBeforeProducer(c, "consumer-before-subscription")
+
 	// ------------------------------------------------------------------ (6)
 	r6 := c.Rule("no-reachable-panic-source", "no explicit panic instruction is reachable from a REST handler through the runner's implementation of IProject (gin.Recovery would turn it into a 500), and every slice expression of the log range function is proved in bounds")
 	panicSite := p.Deep(Site{Name: "panic", Instr: func(in ssa.Instruction) bool { _, ok := in.(*ssa.Panic); return ok }})
